@@ -89,6 +89,7 @@ NOT_RUNNABLE = [
     "__init__ imports the uncompiled mrseql extension",
     "ComposableTimeSeriesForestClassifier / Regressor: abstract under sklearn 1.7 "
     "(_set_oob_score_and_attributes)",
+    "(run with test doubles, among them transformers that return their input or a view of it) "
     "SeriesToSeriesRowTransformer / SeriesToPrimitivesRowTransformer around sktime's own series "
     "transformers other than MeanTransformer: they call pandas methods on the ndarray the row "
     "transformer passes (run with test doubles instead)",
@@ -98,7 +99,7 @@ QUARTERS = [-2.0, -1.0, -0.5, 0.0, 0.25, 0.5, 1.0, 1.5, 2.0, 3.0, 4.0, 5.0, 7.0,
 CLOSED = ["pad", "trunc", "interp", "tab", "concat", "paa", "iseg_int", "iseg_arr", "slide",
           "rows2s", "rows2p"]
 LEARNED_T = ["sax", "sfa", "riseg", "rife", "plateau", "dslope", "dwt", "slope", "hog1d", "mp", "pca",
-             "shapelet", "cshapelet", "rocket", "fpe", "tab_f", "pad_f"]
+             "shapelet", "cshapelet", "rocket", "fpe", "tab_f", "pad_f", "rowview"]
 LEARNED_C = ["boss", "cboss", "iboss", "itde", "muse", "tsf", "rise", "stsf", "colens"]
 LEARNED_R = ["tsfreg"]
 
@@ -244,7 +245,7 @@ def _gen_closed(rng, t):
     elif t == "rows2s":
         X = _panel(rng, "equal", n_inst, rng.choice([1, 2]), nmin=2)
         f = rng.choice([["affine", rng.choice([2.0, -1.0, 0.5]), rng.choice([0.0, 1.0, -3.0])],
-                        ["cumsum"], ["reverse"]])
+                        ["cumsum"], ["reverse"], ["identity"], ["reverse_view"]])
         c.update(X=X, f=f)
     elif t == "rows2p":
         X = _panel(rng, "equal", n_inst, rng.choice([1, 2, 3]), nmin=2)
@@ -307,6 +308,10 @@ def _gen_learned(rng, est):
         cfg = {"param": "initial_level"}
     elif est in ("tab_f", "pad_f"):
         c["ncols"] = rng.choice([1, 2, 3])
+    elif est == "rowview":
+        cfg = {"how": rng.choice(["identity", "head", "stride", "reversed"]), "k": rng.choice([2, 3, 5])}
+        c["ncols"] = rng.choice([1, 2])
+        c["dup"] = False
     elif est == "boss":
         cfg = {"max_ensemble_size": rng.choice([2, 3, 4])}
     elif est == "cboss":
@@ -481,6 +486,25 @@ def driver_init():
             self.check_is_fitted()
             return np.asarray(Z, dtype=float)[::-1].copy()
 
+    class View(_SeriesToSeriesTransformer):
+        """returns its input or a VIEW of it (no copy): identity / head / stride / reversed"""
+        _tags = {"fit-in-transform": True}
+
+        def __init__(self, how="identity", k=2):
+            self.how = how
+            self.k = k
+            super(View, self).__init__()
+
+        def transform(self, Z, X=None):
+            self.check_is_fitted()
+            if self.how == "head":
+                return Z[: self.k]
+            if self.how == "stride":
+                return Z[::2]
+            if self.how == "reversed":
+                return Z[::-1]
+            return Z
+
     class Weighted(_SeriesToPrimitivesTransformer):
         def transform(self, Z, X=None):
             self.check_is_fitted()
@@ -488,7 +512,8 @@ def driver_init():
             w = np.arange(1, Z.shape[0] + 1, dtype=float).reshape((-1,) + (1,) * (Z.ndim - 1))
             return np.sum(Z * w, axis=0)
 
-    _DOUBLES.update({"affine": Affine, "cumsum": Cumsum, "reverse": Reverse, "weighted": Weighted})
+    _DOUBLES.update({"affine": Affine, "cumsum": Cumsum, "reverse": Reverse, "weighted": Weighted,
+                     "view": View})
 
 
 def _nested(rows, colnames="var", index=None, cells="series"):
@@ -697,6 +722,10 @@ def _make_learned(case):
         from sktime.forecasting.exp_smoothing import ExponentialSmoothing
         from sktime.transformations.panel.summarize._extract import FittedParamExtractor
         return (lambda: FittedParamExtractor(ExponentialSmoothing(), [cfg["param"]])), "transform"
+    if est == "rowview":
+        from sktime.transformations.panel.compose import SeriesToSeriesRowTransformer
+        return (lambda: SeriesToSeriesRowTransformer(_DOUBLES["view"](cfg["how"], cfg["k"]))), \
+            "transform"
     if est == "tab_f":
         from sktime.transformations.panel.reduce import Tabularizer
         return (lambda: Tabularizer()), "transform"
@@ -739,6 +768,9 @@ def _make_closed(case):
     if t == "rows2s":
         from sktime.transformations.panel.compose import SeriesToSeriesRowTransformer
         f = case["f"]
+        if f[0] in ("identity", "reverse_view"):      # no copy: the input itself / a reversed view
+            return lambda: SeriesToSeriesRowTransformer(
+                _DOUBLES["view"]("identity" if f[0] == "identity" else "reversed"))
         return lambda: SeriesToSeriesRowTransformer(_DOUBLES[f[0]](*f[1:]))
     if t == "rows2p":
         from sktime.transformations.panel.compose import SeriesToPrimitivesRowTransformer
@@ -1209,6 +1241,8 @@ def _ctconf(case):
         f = case["f"]
         if f[0] == "affine":
             return "(TRowS2S (SAffine %s %s))" % (_cqv(f[1]), _cqv(f[2]))
+        if f[0] == "identity":
+            return "(TRowS2S (SAffine %s %s))" % (_cqv(1), _cqv(0))
         return "(TRowS2S %s)" % ("SCumsum" if f[0] == "cumsum" else "SReverse")
     if t == "rows2p":
         return "(TRowS2P %s)" % ("PMean" if case["g"] == "mean" else "PWeighted")
